@@ -35,7 +35,7 @@ type Config struct {
 }
 
 func defaultConfig() *Config {
-	return &Config{MaxSteps: 3_000_000, MaxLoop: 64, MaxDepth: 200, MaxPaths: 200_000, JobTimeout: 10 * time.Minute,
+	return &Config{MaxSteps: 3_000_000, MaxLoop: 2000, MaxDepth: 200, MaxPaths: 200_000, JobTimeout: 10 * time.Minute,
 		StrMaxLen: 12, SolverTimeoutMs: 20_000, MaxViolationsPerLabel: 2, Preempt: 2, Solver: "z3", permuteSet: map[string]bool{}}
 }
 
